@@ -130,6 +130,10 @@ static const hawk_ooch_t* print_outop_str[] =
 	if (print_expr(hawk,nde) == -1) return -1; \
 } while(0)
 
+#define PRINT_OPERAND(hawk,nde) do { \
+	if (print_operand(hawk,nde) == -1) return -1; \
+} while(0)
+
 #define PRINT_EXPR_LIST(hawk,nde) do { \
 	if (print_expr_list(hawk,nde) == -1) return -1; \
 } while(0)
@@ -144,6 +148,7 @@ static const hawk_ooch_t* print_outop_str[] =
 
 static int print_tabs (hawk_t* hawk, int depth);
 static int print_expr (hawk_t* hawk, hawk_nde_t* nde);
+static int print_operand (hawk_t* hawk, hawk_nde_t* nde);
 static int print_expr_list (hawk_t* hawk, hawk_nde_t* tree);
 static int print_expr_list_for_idx (hawk_t* hawk, hawk_nde_t* tree);
 static int print_stmts (hawk_t* hawk, hawk_nde_t* tree, int depth);
@@ -176,8 +181,16 @@ static int print_printx (hawk_t* hawk, hawk_nde_print_t* px)
 
 	if (px->args != HAWK_NULL)
 	{
+		hawk_nde_t* p;
+
 		PUT_SRCSTR (hawk, HAWK_T(" "));
-		PRINT_EXPR_LIST (hawk, px->args);
+		/* the redirection operator after the last argument binds tighter than an assignment.
+		 * e.g. print (a = 1) > "file" must not be printed as print a = 1 > "file" */
+		for (p = px->args; p; p = p->next)
+		{
+			PRINT_OPERAND (hawk, p);
+			if (p->next) PUT_SRCSTR (hawk, HAWK_T(","));
+		}
 	}
 
 	if (px->out != HAWK_NULL)
@@ -185,10 +198,27 @@ static int print_printx (hawk_t* hawk, hawk_nde_print_t* px)
 		PUT_SRCSTR (hawk, HAWK_T(" "));
 		PUT_SRCSTR (hawk, print_outop_str[px->out_type]);
 		PUT_SRCSTR (hawk, HAWK_T(" "));
-		PRINT_EXPR (hawk, px->out);
+		PRINT_OPERAND (hawk, px->out);
 	}
 
 	return 0;
+}
+
+static int print_operand (hawk_t* hawk, hawk_nde_t* nde)
+{
+	/* an assignment is the only expression that print_expr() doesn't
+	 * enclose in parentheses or otherwise delimit by itself. it must be
+	 * enclosed here when it is an operand of another expression.
+	 * e.g. (a = 1) + 2 must not be printed as (a = 1 + 2) */
+	if (nde->type == HAWK_NDE_ASS)
+	{
+		PUT_SRCSTR (hawk, HAWK_T("("));
+		PRINT_EXPR (hawk, nde);
+		PUT_SRCSTR (hawk, HAWK_T(")"));
+		return 0;
+	}
+
+	return print_expr(hawk, nde);
 }
 
 static int print_expr (hawk_t* hawk, hawk_nde_t* nde)
@@ -232,18 +262,14 @@ static int print_expr (hawk_t* hawk, hawk_nde_t* nde)
 			hawk_nde_exp_t* px = (hawk_nde_exp_t*)nde;
 
 			PUT_SRCSTR (hawk, HAWK_T("("));
-			PRINT_EXPR (hawk, px->left);
+			PRINT_OPERAND (hawk, px->left);
 			HAWK_ASSERT (px->left->next == HAWK_NULL);
 
 			PUT_SRCSTR (hawk, HAWK_T(" "));
 			PUT_SRCSTR (hawk, binop_str[px->opcode][(hawk->opt.trait & HAWK_BLANKCONCAT)? 0: 1]);
 			PUT_SRCSTR (hawk, HAWK_T(" "));
 
-			if (px->right->type == HAWK_NDE_ASS)
-				PUT_SRCSTR (hawk, HAWK_T("("));
-			PRINT_EXPR (hawk, px->right);
-			if (px->right->type == HAWK_NDE_ASS)
-				PUT_SRCSTR (hawk, HAWK_T(")"));
+			PRINT_OPERAND (hawk, px->right);
 			HAWK_ASSERT (px->right->next == HAWK_NULL);
 			PUT_SRCSTR (hawk, HAWK_T(")"));
 			break;
@@ -799,7 +825,7 @@ static int print_expr (hawk_t* hawk, hawk_nde_t* nde)
 
 			if (px->in && (px->in_type == HAWK_IN_PIPE || px->in_type == HAWK_IN_RWPIPE))
 			{
-				PRINT_EXPR (hawk, px->in);
+				PRINT_OPERAND (hawk, px->in);
 				PUT_SRCSTR (hawk, HAWK_T(" "));
 				PUT_SRCSTR (hawk, getline_inop_str[px->in_type]);
 				PUT_SRCSTR (hawk, HAWK_T(" "));
@@ -818,7 +844,7 @@ static int print_expr (hawk_t* hawk, hawk_nde_t* nde)
 				PUT_SRCSTR (hawk, HAWK_T(" "));
 				PUT_SRCSTR (hawk, getline_inop_str[px->in_type]);
 				PUT_SRCSTR (hawk, HAWK_T(" "));
-				PRINT_EXPR (hawk, px->in);
+				PRINT_OPERAND (hawk, px->in);
 			}
 
 			PUT_SRCSTR (hawk, HAWK_T(")"));
